@@ -33,7 +33,8 @@ theorem consume_some (tok bs rest : Bytes) (h : consume tok bs = some rest) : bs
 /-- what a header line accepted by the loop looks like -/
 def LineOK (kv : Bytes × Bytes) : Prop :=
   (∀ b ∈ kv.1, b ≠ COLON) ∧ (∀ b ∈ kv.2, b ≠ CR) ∧ validUtf8 kv.1 = true ∧ validUtf8 kv.2 = true ∧ consume [CR, LF] (kv.1 ++ [COLON]) = none ∧
-  isName kv.1 = true          -- the name is a token: not empty, no separator, no control byte (so no line end inside it)
+  isName kv.1 = true ∧         -- the name is a token: not empty, no separator, no control byte (so no line end inside it)
+  isValue kv.2 = true          -- the value holds no control byte but HTAB (no NUL, no bare LF)
 
 theorem headers_sound : ∀ (fuel : Nat) (bs : Bytes) (std : List (Nat × Bytes)) (cus : List (Bytes × Bytes)) (std' : List (Nat × Bytes)) (cus' : List (Bytes × Bytes)) (rest : Bytes),
     headers fuel bs std cus = .ok (std', cus', rest) →
@@ -63,7 +64,7 @@ theorem headers_sound : ∀ (fuel : Nat) (bs : Bytes) (std : List (Nat × Bytes)
         generalize hrw2 : readWhile (· != CR) r2 = vr at h hv1 hv2 hv3
         obtain ⟨v, r3⟩ := vr
         simp only at h hv1 hv2 hv3
-        by_cases hu : (isName k && validUtf8 k && validUtf8 v) = true
+        by_cases hu : (isName k && isValue v && validUtf8 k && validUtf8 v) = true
         · simp only [hu, Bool.not_true, Bool.false_eq_true, if_false] at h
           cases hc2 : consume [CR, LF] r3 with
           | none => simp [hc2] at h
@@ -74,11 +75,12 @@ theorem headers_sound : ∀ (fuel : Nat) (bs : Bytes) (std : List (Nat × Bytes)
             have hbs : bs = (k ++ [COLON, SP] ++ v ++ [CR, LF]) ++ r4 := by
               rw [hk1, e1, hv1, e2]; simp
             have hline : LineOK (k, v) := by
-              refine ⟨fun b hb => by simpa using hk2 b hb, fun b hb => by simpa using hv2 b hb, ?_, ?_, ?_, ?_⟩
+              refine ⟨fun b hb => by simpa using hk2 b hb, fun b hb => by simpa using hv2 b hb, ?_, ?_, ?_, ?_, ?_⟩
               · simp only [Bool.and_eq_true] at hu; exact hu.1.2
               · simp only [Bool.and_eq_true] at hu; exact hu.2
               rotate_left
-              · simp only [Bool.and_eq_true] at hu; exact hu.1.1
+              · simp only [Bool.and_eq_true] at hu; exact hu.1.1.1
+              · simp only [Bool.and_eq_true] at hu; exact hu.1.1.2
               · -- the line does not start with CRLF, since `bs` did not
                 have : consume [CR, LF] bs = none := hc
                 rw [hbs] at this
@@ -113,7 +115,7 @@ theorem headers_sound : ∀ (fuel : Nat) (bs : Bytes) (std : List (Nat × Bytes)
               · rw [hbs, hb]; simp [encodeHeaders]
               · intro kv hkv; rcases List.mem_cons.mp hkv with rfl | hkv; exact hline; exact hl kv hkv
               · simp only [List.foldl_cons, stepH, hsi]; exact hf
-        · have hu' : (isName k && validUtf8 k && validUtf8 v) = false := by simpa using hu
+        · have hu' : (isName k && isValue v && validUtf8 k && validUtf8 v) = false := by simpa using hu
           simp [hu'] at h
 
 end Ohkami.Http
